@@ -137,6 +137,16 @@ def families(tier):
         reg = [('h', ix['probe' + b]) for b in n4] + [('h', ix['hq' + b]) for b in n4] + [('f', 'A', 'B'), ('f', 'A', 'B'), ('f', 'B', 'C'), ('f', 'C', 'D'), ('h', ix['haudit'])]
         out.append(dict(prop='C07', family='c07.double_edge_then_chain', id=f'c07/dbl-chain-slow{slow_on}-o{"".join(order)}', cfg=cfg2, params=dict(edges=edges, entry='A'),
                         scn=dict(buses={b: {} for b in n4}, order=order, handlers=hs, reg=reg, main=[('disp', 'A', 'P', 'ff')], actors=[], forwards=edges, settle=3.0)))
+    # a typed handler of the entry bus overruns the event's time-out (0.5 s) before the bus's wildcard forwards - which always come after the typed handlers - have
+    # run: the time-out ends that handler, the forwards still happen
+    for sname, edges in shapes.items():
+        for entry, first in itertools.product(names, (True, False)):
+            slow = dict(bus=entry, pat='P', name='hslow', prog=[('pause',), ('pause',), ('ret', 0)])
+            hs = ([slow] + probes(names)) if first else (probes(names) + [slow])
+            for order in (names, names[::-1]):
+                out.append(dict(prop='C07', family='c07.typed_handler_times_out_before_the_forwards', id=f'c07/tmo-{sname}-{entry}-f{int(first)}-o{"".join(order)}', cfg=dict(cfg2, window=0.8, max_targets=2),
+                                params=dict(edges=edges, entry=entry, tmo=True),
+                                scn=dict(buses={b: {} for b in names}, order=order, handlers=hs, main=[('disp', entry, 'P', 'ff', {'timeout': 0.5})], actors=[], forwards=edges, settle=3.0)))
     # three buses all REQUESTED under one name (legitimate: the library warns and renames the newcomers): they are still three different buses
     for sname, edges in shapes.items():
         for entry in names:
@@ -215,6 +225,8 @@ def oracle(spec, res):
                 out.append(V('result_not_terminal', f'{ev}: {r}'))
             if r['h'].startswith('probe'):
                 per[r['bus']] = per.get(r['bus'], 0) + 1
+                if spec['params'].get('tmo') and r['status'] == 'error' and r['errtype'] in ('TimeoutError', 'CancelledError'):
+                    continue  # (the event's time-out applies to every handler of it, the probes included)
                 if r['status'] != 'completed' or r['value'] != repr(r['bus']):
                     out.append(V('probe_result_wrong', f'{ev}: {r}'))
         if per != {b: 1 for b in reach}:
